@@ -121,6 +121,21 @@ def check_module(m, res, d, seed_label):
         if ids_exp != ids_obs:
             res['expect'].append(('doctestables', {'kind': 'module-examples', 'source': src, 'style': style, 'label': seed_label},
                                   ids_exp, ids_obs, 'identifiers callname:num differ from the expectation by construction'))
+        # the index counts the blocks of a docstring IN ORDER: the doctest callname:k+1 starts further down than callname:k, and the
+        # text of callname:k is the k-th block (the first source line of each, in document order, is known by construction)
+        if ids_exp == ids_obs:
+            first = {}
+            for (cn, num, fp, bf, dd, bb) in gm.expected_examples(m, style):
+                if bb is not None and bb.stmts and not bb.prose_first:
+                    first[(cn, num)] = m.lines[bb.stmts[0].first_line - 1].strip()
+            for o in obs:
+                want_line = first.get((o[0], o[1]))
+                got_line = (o[4] or '').lstrip('\n').split('\n')[0].strip() if o[4] else None
+                if want_line is not None and got_line is not None and want_line != got_line:
+                    res['expect'].append(('doctestables', {'kind': 'module-examples', 'source': src, 'style': style, 'label': seed_label},
+                                          {'%s:%d starts with' % (o[0], o[1]): want_line}, got_line,
+                                          'the doctest with index k is not the k-th Example block of its docstring'))
+                    break
         uniq = ['%s:%d' % (o[0], o[1]) for o in obs]
         if len(set(uniq)) != len(uniq):
             res['expect'].append(('doctestables', {'kind': 'module-examples', 'source': src, 'style': style, 'label': seed_label},
